@@ -154,7 +154,7 @@ func runC01(p *core.Prog, r *core.Report) {
 	}
 
 	// ---- R3
-	cl, why := findCharLoop(san)
+	cl, why := findCharLoop(p.Inl(san)) // a scanning helper is seen in place
 	if cl == nil {
 		r.Fail("C01-R3", "escape decision", p.FuncPos(san), why)
 		return
